@@ -20,6 +20,17 @@ ASSUMPTIONS = [
 
 PROPS = {
 
+    "C09": {"rule": "histories of 1-16 operations (init, push, remove(i) in/out of range, element write in/out of range, sort by element bytes, interleaved queries: "
+            "reopen read-only/mutably, visible slice, bytes_used/allocated) over 10 element types (sizes 1,3,35,2,4,8,16,16,0,0; alignments 1..16) x 4 prefix widths, capacities 0..8 "
+            "(+ 1-3 slop bytes in 10%), arena offsets aligned and (1/8) arbitrary, buffers pre-filled with random bytes; the PodU16 boundary (capacity 65535/65536, stored 65534/65535); "
+            "size_of for n in {0,1,2,7,1000, around usize::MAX/35, usize::MAX}; non-trivial = at least two successful operations",
+            "partial": [], "masks": ["none: the model is byte-exact (stale element copies after remove and padding bytes included)"],
+            "assumptions": ["capacity < 2^64 (a Rust slice has fewer than 2^63 elements)", "'a buffer of size_of(n) has capacity n' is stated for non-zero-sized elements", "sort uses the lexicographic order on element bytes (unique result)"]},
+    "C10": {"rule": "every buffer length 0..header+3*size+2 x every start offset 0..15 of a 16-aligned arena x 9 stored lengths {0, cap, cap+1, prefix max, 2^63, 2^64-1, 2^64, 2^128-1, 1} "
+            "x 10 element types x 4 prefix widths, other bytes random; unpack, unpack_mut (and init on a copy) each time; a sample (every 97th / 11th) is also evaluated in Coq; "
+            "non-trivial = accepted", "partial": [], "masks": [],
+            "assumptions": ["known finding D3: model and monitor expect a panic for a 128-bit prefix above usize::MAX (an Err is accepted too)"]},
+
     "C01": {"rule": 'histories of 1-40 operations (alloc with/without repetition, init-with-default, realloc to {0, same, +-1, exact fit, fit+-1, half, random, 2^32}, byte and typed writes, variable-length pack with a Borsh-derived and a hand-written packer, alloc-and-pack) over zeroed buffers of 0..300 bytes and 5 tags (two sharing a 7-byte prefix, one with leading and one with trailing zero bytes); state-aware targets (existing entry / missing type / one-past repetition); after every operation the result (value offset by pointer arithmetic, repetition number), an Adler-32 of the slab and 0-2 random queries (get bytes / typed get / list types / reopen, through the mutable, borrowed or owned view) are recorded; the final slab is compared in full; non-trivial = at least one successful mutation; distinct = distinct case terms (Coq cases) or distinct final slabs (monitor-only histories)', "partial": [], "masks": [],
             "assumptions": ["histories start from a zeroed buffer (theorems: from any canonical slab)", "type tags are non-zero (the zero tag is the terminator)", "typed values are alignment-1 Pod types"]},
     "C03": {"rule": 'histories of 1-40 operations (alloc with/without repetition, init-with-default, realloc to {0, same, +-1, exact fit, fit+-1, half, random, 2^32}, byte and typed writes, variable-length pack with a Borsh-derived and a hand-written packer, alloc-and-pack) over zeroed buffers of 0..300 bytes and 5 tags (two sharing a 7-byte prefix, one with leading and one with trailing zero bytes); state-aware targets (existing entry / missing type / one-past repetition); after every operation the result (value offset by pointer arithmetic, repetition number), an Adler-32 of the slab and 0-2 random queries (get bytes / typed get / list types / reopen, through the mutable, borrowed or owned view) are recorded; the final slab is compared in full; non-trivial = at least one successful mutation; distinct = distinct case terms (Coq cases) or distinct final slabs (monitor-only histories)', "partial": [], "masks": [],
